@@ -1,6 +1,7 @@
 """C04 — strict decoding accepts exactly schema-conforming messages."""
 from ..facts import Program, AnalysisBroken
 from .. import q
+from . import c07
 
 CLAIM = {
     'text': 'Wiring rules on the strict decode path: the number of bytes the three section decoders consumed must be compared with the end of '
@@ -22,7 +23,7 @@ EXPLANATION = (
     "unsigned short lies under a decision bounding the value by 65535; R04.3 decode: find_missing() on every path to a return and a "
     "non-zero result throws; DuplicateField under present ∧ ¬automatic; decode_group: MissingRepeatingGroupField when pos == 0 and "
     "getPos != 1, find_missing per element; factory: `return msg` dominated by the \"10\" test and by chkval != mchkval → throw under "
-    "!no_chksum; R04.4 `_create._do(val, …)` receives the array the extractor filled. NOT decided: concrete inputs.")
+    "!no_chksum; R04.4 `_create._do(val, …)` receives the array the extractor filled. R04.5 the checksum routine factory verifies with satisfies the C07 rules. NOT decided: concrete inputs.")
 
 MB = 'FIX8::MessageBase::'
 M = 'FIX8::Message::'
@@ -161,6 +162,21 @@ def run(ctx):
             any(a.strip(casts=True).k == 'BinaryOperator' and a.strip(casts=True).op == '!=' and a.strip(casts=True).children[1].strip(casts=True).value == 1 and p and
                 any(x.is_call and x.callee is not None and x.callee.get('n') == 'getPos' for x in a.walk()) for a, p in atoms)
     ctx.check(okm, 'R04.3', MB + 'decode_group#first-field', mr[0].loc if mr else g.loc, 'an element whose first field is not the group\'s position-1 field throws')
+    # ... for EVERY element: the field counter tested against 0 starts at 0 again for each element (it is defined inside the element loop)
+    if len(mr) == 1:
+        cnt = None
+        for a, p in q.controlling_atoms(g, mr[0]):
+            sa = a.strip(casts=True)
+            if sa.k == 'BinaryOperator' and sa.op == '==' and sa.children[1].strip(casts=True).value == 0 and p and sa.children[0].strip(casts=True).k == 'DeclRefExpr':
+                cnt = sa.children[0].strip(casts=True).declid
+        ctx.need(cnt is not None, 'decode_group: the per-element field counter of the first-field test not found')
+        zero_defs = [dn for (dn, kind, val) in q.local_defs(g, cnt) if kind in ('init', 'assign') and val is not None and val.strip(casts=True).value == 0 and gc.has_vertex(dn)]
+        app_v = [gc.vertex_of(c) for c in app] if False else None
+        per_elem = any(gc.vertex_of(dn) in gc.reach_from(gc.vertex_of(dn)) for dn in zero_defs)      # on a cycle = executed once per element
+        ctx.check(bool(zero_defs) and per_elem, 'R04.3', MB + 'decode_group#first-field.every-element', mr[0].loc,
+                  'the field counter of the first-field test is reset to 0 inside the element loop',
+                  'the counter tested by the first-field check is set to 0 only once, outside the element loop: from the second element on the check never fires, and an '
+                  'element that begins with a non-first member (78=2|79=A|80=1|80=2|79=B) is accepted in strict mode')
     gfm = g.calls_to('FIX8::FieldTraits::find_missing')
     app = [c for c in g.calls() if c.callee is not None and c.r.get('op') == '<<' and 'GroupBase' in (c.callee.get('rec') or '')]
     ctx.check(len(gfm) == 1 and len(app) == 1 and gc.dominates(gc.vertex_of(gfm[0]), gc.vertex_of(app[0])), 'R04.3', MB + 'decode_group#missing-per-element', g.loc,
@@ -205,5 +221,9 @@ def run(ctx):
             same = a.k == 'DeclRefExpr' and all(q.refers_to_decl(e.args[3], a.declid) for e in ee)
             ctx.check(same, 'R04.4', fq + '#value-buffer', c.loc, 'the field is created from the value buffer the extractor filled')
             # and the key looked up is the tag parsed from the same extraction: the factory entry comes from find_be(tv)
+    # R04.5 the CheckSum verified by factory is computed by Message::calc_chksum: the C07 rules apply (a wrong sum rejects a conforming message
+    # and accepts a corrupted one)
+    c07.rules(ctx, prog, rid='R04.5')
+    ctx.floor('R04.5', 8)
     ctx.floor('R04.3', 7)
     ctx.floor('R04.4', 2)
